@@ -136,16 +136,16 @@ func checkC02(c C02Case, r *Rec) *Violation {
 		// that every spelling meets every mask many times per run)
 		alt := int((hash64(src) + uint64(mask)) % (2 + directiveVariants + 4))
 		how, variant := HowMapSparse, 0
-		switch alt {
-		case 1:
+		switch {
+		case alt == 1:
 			how = HowOptionFn
-		case 2, 3, 4, 5, 6, 7:
+		case alt >= 2 && alt < 2+directiveVariants:
 			how, variant = HowDirective, alt-2
-		case 8, 9:
+		case alt >= 2+directiveVariants && alt < 4+directiveVariants:
 			how, variant = HowDirectiveOpp, int(hash64(src)%uint64(directiveVariants))
-		case 10:
+		case alt == 4+directiveVariants:
 			how = HowCopySet
-		case 11:
+		case alt == 5+directiveVariants:
 			how = HowExtendSet
 		}
 		{
@@ -257,7 +257,7 @@ func checkC02(c C02Case, r *Rec) *Violation {
 
 var propC02 = Prop[C02Case]{
 	ID:    "C02",
-	Rule:  "typed random expression (all variables bound, failures from operators only) x cost map (incl. NaN/Inf/huge/negative) compiled under all 16 optimization subsets, each expressed in several ways (full map, sparse map, Optimizations option, ;;;; directives in 6 spellings, the directive over a config that says the opposite, options set on a CopyConfig / ExtendConf copy of a config that says the opposite); oracles: pairwise equal values, R_eager value everywhere, R value without Reordering, identical Dump/DumpTable across the four ways, outcome = R/R_fast on the configuration's own Dump. Non-trivial = at least two of the 16 dumps differ from the unoptimized dump; distinct by source + binding + costs",
+	Rule:  "typed random expression (all variables bound, failures from operators only) x cost map (incl. NaN/Inf/huge/negative) compiled under all 16 optimization subsets, each expressed in several ways (full map, sparse map, Optimizations option, ;;;; directives in 8 spellings (two of them say the opposite first and rely on the later directive winning), the directive over a config that says the opposite, options set on a CopyConfig / ExtendConf copy of a config that says the opposite); oracles: pairwise equal values, R_eager value everywhere, R value without Reordering, identical Dump/DumpTable across the four ways, outcome = R/R_fast on the configuration's own Dump. Non-trivial = at least two of the 16 dumps differ from the unoptimized dump; distinct by source + binding + costs",
 	Gen:   genC02,
 	Check: checkC02,
 }
